@@ -87,6 +87,7 @@ def check(prop, tier, seed):
         return [hit]
     rng = random.Random(seed * 977 + 5)
     res = {"suite": "conc", "kind": "mc+stress", "params": params, "cache_hit": False}
+    res["rule"] = "schedules = thread-id sequence of every transition TLC explored on AllocConc_L1 for each program set (prefix-deduplicated) + random schedules, each replayed on real threads through the yield-point hook; plus free-running stress programs on 2..32 threads; one logged run per case checked by TLC against Conc_L0"
     cases = CASES if tier == "quick" else CASES_THOROUGH
     scripts = []
     tid = 41000000
